@@ -42,6 +42,7 @@ type Contract struct {
 	Safe     bool
 	Modular  bool // never inline at call sites even if it has no ensures
 	NoBody   bool
+	EosExit  bool
 	Witness  map[string]string
 	Unordered map[int]string // map-range ordinal -> the only entry point from which the function may be reached
 	UsesOnly []UsesOnly
@@ -69,7 +70,7 @@ type SpecFunc struct {
 	Opaque bool
 }
 
-var kwRe = regexp.MustCompile(`^(func|spec|requires|ensures|decreases|loop|safe|modular|terminates|witness|witnessgo|unordered|usesonly|mapwrite|callsite|nobody|end)\b`)
+var kwRe = regexp.MustCompile(`^(func|spec|preserved|eosexit|requires|ensures|decreases|loop|safe|modular|terminates|witness|witnessgo|unordered|usesonly|mapwrite|callsite|nobody|end)\b`)
 
 func (e *Engine) loadContracts() error {
 	e.contracts = map[string]*Contract{}
@@ -156,6 +157,11 @@ func (e *Engine) parseContractFile(file, pkgPath, data string) error {
 			return c, nil
 		}
 		switch kw {
+		case "preserved":
+			// preserved <pred> <type> owners <pkg>,<pkg>,...
+			if len(fields) >= 5 && fields[3] == "owners" {
+				e.preserved = append(e.preserved, Preserved{Pred: fields[1], Type: fields[2], Owners: strings.Split(fields[4], ",")})
+			}
 		case "spec":
 			// spec name(a, b) = expr
 			eqi := strings.Index(rest, "=")
@@ -263,6 +269,8 @@ func (e *Engine) parseContractFile(file, pkgPath, data string) error {
 			cur.Safe = true
 		case "modular":
 			cur.Modular = true
+		case "eosexit":
+			cur.EosExit = true // every loop that reads a token leaves when the read hits the end of the stream
 		case "nobody":
 			cur.NoBody = true // only the syntactic (def-use) obligations; the body is not executed
 		case "terminates":
